@@ -266,8 +266,11 @@ def run_scenario(sc, work, seed):
         all_types = pydsdl.read_namespace(str(rootdir), [str(dsdl / l) for l in sc.get("lookup", [])])
         by_name = {type_name(t): t for t in all_types}
         sel = [by_name[n] for n in run["types"]] if run.get("types") is not None else list(all_types)
-        same_gen = run.get("gen") == "same" and prev is not None
-        same_lctx = (same_gen or run.get("lctx") == "same") and prev is not None and prev["lang"] == lang
+        cfg_l = json.dumps([lang, run.get("langopts") or {}], sort_keys=True)
+        cfg_g = json.dumps([cfg_l, run.get("pps") or {}, bool(run.get("tap", True)), run["d"], run.get("types")], sort_keys=True)
+        # reuse only what was really built with the same configuration (the key is computed from the run's own fields)
+        same_gen = run.get("gen") == "same" and prev is not None and prev["cfg_g"] == cfg_g
+        same_lctx = (same_gen or run.get("lctx") == "same") and prev is not None and prev["cfg_l"] == cfg_l
         if same_gen:
             cur = prev
             gen, st, ns = cur["gen"], cur["st"], cur["ns"]
@@ -303,8 +306,7 @@ def run_scenario(sc, work, seed):
                     return ""
 
                 kw = dict(templates_dir=tdir, generate_namespace_types=YesNoDefault.NO, additional_globals={"c10probe": probe})
-            cur = dict(lctx=lctx, lang=lang, out=out, ns=ns, st=st, run_events=None)
-            produced = []
+            cur = dict(lctx=lctx, lang=lang, out=out, ns=ns, st=st, cfg_l=cfg_l, cfg_g=cfg_g)
 
             def sink(p, _cur=cur):
                 _cur["sink"](p)
@@ -376,9 +378,6 @@ def run_scenario(sc, work, seed):
                         "uq": {"obs": 0, "ub": 0, "un": 0, "exp": 0}, "nh": {"b": "", "u": "", "i": "", "a": ""},
                     })
                     state["ord"] += 1
-        if not same_gen:
-            # files of this run are no longer needed; the generator object may be reused and will rewrite them
-            pass
         prev = cur
     return events
 
@@ -447,6 +446,8 @@ def model_scenario(sid, rec, lang, kind):
     """a history emitted by TLC (shape, limit, runs with abstract files) -> executable scenario"""
     shape = {k: (bool(v) if k in ("mod", "inc") else int(v)) for k, v in rec["shape"].items()}
     limit = int(rec["limit"])
+    if limit == 0 and (shape["lead"] or shape["trail"]) and lang in ("c", "py"):
+        lang = {"c": "cpp", "py": "html"}[lang]  # c and py add LimitEmptyLines(1) of their own: "no limiter" does not exist there
     runs, expect = [], []
     for r in rec["runs"]:
         mode = r["mode"]
@@ -660,7 +661,7 @@ def rand_scenario(ctx, sid, rng):
     def mk(d, types=None, lctx="fresh", gen="fresh", omit=False, embed=False, lang2=None):
         x = dict(base)
         if lang2 is not None:
-            x.update(lang=lang2, langopts=None)
+            x.update(lang=lang2, langopts=None, pps={"limit": None}, tap=True)
         x.update(d=d, types=types, lctx=lctx, gen=gen, omit=omit, embed=embed)
         return x
 
@@ -681,8 +682,8 @@ def rand_scenario(ctx, sid, rng):
                 rng.shuffle(s)
             runs.append(mk(cur_d, s, lctx=rng.choice(["fresh", "same"])))
         elif k < 0.55:  # the same generator object again, other flags
-            runs.append(mk(runs[-1]["d"], runs[-1]["types"], lctx="same", gen="same", omit=rng.random() < 0.5, embed=rng.random() < 0.25))
-            runs.append(mk(runs[-1]["d"], runs[-1]["types"], lctx="same", gen="same", omit=runs[0]["omit"]))
+            runs.append(dict(runs[-1], lctx="same", gen="same", omit=rng.random() < 0.5, embed=rng.random() < 0.25))
+            runs.append(dict(runs[-1], lctx="same", gen="same", omit=runs[0]["omit"], embed=False))
         elif k < 0.85:  # edited definitions behind a reused LanguageContext, then fresh, then back
             nd = rng.choice([d for d in range(len(defsets)) if d != cur_d])
             runs.append(mk(nd, lctx="same"))
@@ -698,10 +699,6 @@ def rand_scenario(ctx, sid, rng):
             runs.append(mk(cur_d, omit=True))
             runs.append(mk(cur_d, omit=True, lctx="same"))
     runs.append(mk(cur_d, lctx="fresh"))
-    for x in runs:
-        if x["lang"] != lang:
-            x["pps"] = {"limit": None}
-            x["tap"] = True
     return {"sid": sid, "kind": "rand", "defsets": defsets, "rootns": "vr", "lookup": [], "tpl": tpl, "names": {}, "runs": runs,
             "edits": edits}
 
